@@ -34,7 +34,12 @@ CLAIM = dict(
          'grid_prep_opts and is outside the model and outside the documented argument types), n integral, batches '
          'non-empty and rectangular, grid_flat mode sizes >= 1; linspace(1/m,1,m) of cdf_getter is modelled by its '
          'exact values k/m. A missing bound (a or b None) is a TypeError before n is looked at; the rejection theorems '
-         'for poi_to_ind say so (hypotheses a, b <> None, or: the call never succeeds).',
+         'for poi_to_ind say so (hypotheses a, b <> None, or: the call never succeeds). Cross-cutting families validated '
+         'numerically (search; exact correspondence where the Qc model expresses them): option arrays of the exact target dtype '
+         'reused across calls stay bit-identical, argument forms (np.float64 / list / ndarray / int32 ndarray must agree; numpy integer '
+         'scalars and 0-d arrays may raise, never a different answer), scales (boxes with a, b = +-2^+-500 and 2^+-1000, the narrowest '
+         'boxes the precondition admits at offset 2^40 - width 2^-40 there violates the precondition and is out -, bit-exact '
+         'equivariance under power-of-two rescaling, n = 2 and n = 2^20, 2^20 + 1); subnormal boxes are out (result not representable).',
     technique='Coq proof (Reals: lra/nra/field, acos_cos; lists: induction) + exact model/implementation '
               'correspondence over Qc on dyadic inputs + exhaustive enumeration of the round trip on the implementation')
 TRUSTED = ['Coq 8.16.1 kernel + vm_compute (case evaluation only); Reals axioms of the standard library',
@@ -331,6 +336,35 @@ def correspondence(R, ctx):
             dist['outside'] += sum(1 for p in pts if p < a or p > b)
             items.append(dict(coq=f'shZ1 (poi_to_ind1 OQc Qc_floor idQ (q 0 1) {qlist(pts)} (GSc {ql(a)}) (GSc {ql(b)}) (GSc {n}) KUni)',
                               impl=impl_z1(tn.poi_to_ind, X, a, b, n, 'uni'), input=['poi_to_ind-uni-exact', name, a, b, n, X]))
+    # scales: the same exact family on boxes rescaled by 2^+-500 (2^+-1000: search only, Qc gcd cost), and n - 1 = 2^20
+    for (name, a0, b0), p2 in itertools.product([DY_BOXES[0], DY_BOXES[2]], [500, -500]):
+        a, b = math.ldexp(a0, p2), math.ldexp(b0, p2)
+        for n in [2, 9]:
+            I = list(range(n))
+            items.append(dict(coq=f'shQ1 (ind_to_poi1 OQc idQ (q 0 1) {C.zlist(I)} (GSc {ql(a)}) (GSc {ql(b)}) (GSc {n}) KUni)',
+                              impl=impl_q1(tn.ind_to_poi, I, a, b, n, 'uni'), input=['ind_to_poi-uni-exact-scaled', name, p2, n]))
+            h = (Fr(b) - Fr(a)) / (n - 1)
+            pts = [Fr(a) + h * (i + off) for i in range(n) for off in [Fr(0), Fr(1, 4), Fr(1, 2), Fr(3, 4)]]
+            pts += [Fr(a) - h / 2, Fr(a) - h * 3, Fr(b) + h / 2, Fr(b) + (Fr(b) - Fr(a)) * 1000]
+            pts = [q_ for q_ in pts if Fr(float(q_)) == q_ and Fr(float(q_) - a) == q_ - Fr(a)][::3][:6]
+            if pts:
+                items.append(dict(coq=f'shZ1 (poi_to_ind1 OQc Qc_floor idQ (q 0 1) {qlist(pts)} (GSc {ql(a)}) (GSc {ql(b)}) (GSc {n}) KUni)',
+                                  impl=impl_z1(tn.poi_to_ind, [float(q_) for q_ in pts], a, b, n, 'uni'),
+                                  input=['poi_to_ind-uni-exact-scaled', name, p2, n]))
+            dist['scaled'] = dist.get('scaled', 0) + 2
+    nbig = 2 ** 20 + 1
+    for name, a, b in [DY_BOXES[0], DY_BOXES[2], DY_BOXES[4], DY_BOXES[8]]:
+        I = [0, 1, 2, 3, nbig // 2, nbig - 2, nbig - 1] + [rng.randrange(nbig) for _ in range(8)]
+        items.append(dict(coq=f'shQ1 (ind_to_poi1 OQc idQ (q 0 1) {C.zlist(I)} (GSc {ql(a)}) (GSc {ql(b)}) (GSc {nbig}) KUni)',
+                          impl=impl_q1(tn.ind_to_poi, I, a, b, nbig, 'uni'), input=['ind_to_poi-uni-exact-n2^20', name]))
+        h = (Fr(b) - Fr(a)) / (nbig - 1)
+        pts = [Fr(a) + h * (i + off) for i in I for off in [Fr(0), Fr(1, 4), Fr(1, 2), Fr(3, 4)]]
+        pts = [q_ for q_ in pts if Fr(float(q_)) == q_ and Fr(float(q_) - a) == q_ - Fr(a)][:40]
+        if pts:
+            items.append(dict(coq=f'shZ1 (poi_to_ind1 OQc Qc_floor idQ (q 0 1) {qlist(pts)} (GSc {ql(a)}) (GSc {ql(b)}) (GSc {nbig}) KUni)',
+                              impl=impl_z1(tn.poi_to_ind, [float(q_) for q_ in pts], a, b, nbig, 'uni'),
+                              input=['poi_to_ind-uni-exact-n2^20', name]))
+        dist['n_2^20'] = dist.get('n_2^20', 0) + 2
     # poi_scale: widths a power of two, small dyadic points and limits -> exact for all three kinds
     for _ in range(200 if thorough else 60):
         d = rng.randint(1, 4)
@@ -1010,7 +1044,59 @@ def o_forms(tn, av, bv, nv, kind, idx):
     return None, raised
 
 
-ORACLES = dict(history=o_history, grid=o_grid, points=o_points, scale=o_scale, batch=o_batch, bcast=o_bcast, flat=o_flat,
+def o_scale18(tn, a, b, n, kind, p2, idx, ts):
+    """exact power-of-two rescaling of the box (and of the points): the grid maps are equivariant bit for bit:
+    ind_to_poi(I, s a, s b) == s ind_to_poi(I, a, b); poi_to_ind(s X, s a, s b) == poi_to_ind(X, a, b); same for poi_scale"""
+    s_ = lambda v: np.ldexp(np.asarray(v, dtype=float), p2)      # noqa
+    sa, sb = float(s_(a)), float(s_(b))
+    X = np.asarray(tn.ind_to_poi(list(idx), a, b, n, kind), dtype=float)
+    Xs = np.asarray(tn.ind_to_poi(list(idx), sa, sb, n, kind), dtype=float)
+    if not np.array_equal(Xs, s_(X)):
+        return dict(what=f'ind_to_poi({kind}): box scaled by 2^{p2} does not give the nodes scaled by 2^{p2} exactly',
+                    got=Xs.tolist(), expected=s_(X).tolist())
+    back = np.asarray(tn.poi_to_ind(Xs, sa, sb, n, kind)).tolist()
+    if back != list(idx):
+        return dict(what=f'poi_to_ind(ind_to_poi(i)) != i on the box scaled by 2^{p2} ({kind})', got=back, expected=list(idx))
+    pts = np.array([a + (b - a) * t for t in ts])
+    for fn, r0, r1 in [('poi_to_ind', tn.poi_to_ind(pts, a, b, n, kind), tn.poi_to_ind(s_(pts), sa, sb, n, kind)),
+                       ('poi_scale', tn.poi_scale(pts, a, b, kind), tn.poi_scale(s_(pts), sa, sb, kind)),
+                       ('poi_to_ind vector options', tn.poi_to_ind(pts[:2], [a, a], [b, b], [n, n], kind),
+                        tn.poi_to_ind(s_(pts[:2]), [sa, sa], [sb, sb], [n, n], kind))]:
+        if np.asarray(r0).tolist() != np.asarray(r1).tolist():
+            return dict(what=f'{fn}({kind}): answers change when box and points are scaled by 2^{p2}',
+                        got=np.asarray(r1).tolist(), expected=np.asarray(r0).tolist())
+    return None
+
+
+def o_bign(tn, a, b, n, kind, idx):
+    """very large grids (n up to 2^20 + 1) and n = 2 on selected indices: end points, in-box, reference nodes, round trip,
+    boundary / outside points, single = element of a batch"""
+    u, w = scale_ulp(a, b), b - a
+    X = np.asarray(tn.ind_to_poi(list(idx), a, b, n, kind), dtype=float)
+    E = np.asarray(tn.ind_to_poi([0, n - 1], a, b, n, kind), dtype=float)
+    lo_end, hi_end = (E[0], E[1]) if kind == 'uni' else (E[1], E[0])
+    if abs(lo_end - a) > 4 * u or abs(hi_end - b) > 4 * u:
+        return dict(what=f'ind_to_poi({kind}), n = {n}: end points are not the box ends (4 ulp)', got=E.tolist())
+    if np.any(X < a - 4 * u) or np.any(X > b + 4 * u):
+        return dict(what=f'ind_to_poi({kind}), n = {n}: node outside the box')
+    for i, x in zip(idx, X):
+        if abs(x - _ref_node(a, b, n, i, kind)) > 6 * u + 8 * math.ulp(w):
+            return dict(what=f'ind_to_poi({kind}), n = {n}: node {i} is not the grid node', got=float(x),
+                        expected=_ref_node(a, b, n, i, kind))
+    back = np.asarray(tn.poi_to_ind(X, a, b, n, kind)).tolist()
+    if back != list(idx):
+        return dict(what=f'poi_to_ind(ind_to_poi(i)) != i ({kind}), n = {n}', got=back, expected=list(idx))
+    g = np.asarray(tn.poi_to_ind(np.array([a, a - w, a - 3 * w, b, b + w, b + 3 * w]), a, b, n, kind)).tolist()
+    e_lo, e_hi = (0, n - 1) if kind == 'uni' else (n - 1, 0)
+    if g != [e_lo] * 3 + [e_hi] * 3:
+        return dict(what=f'poi_to_ind({kind}), n = {n}: points on / outside the boundary do not go to the boundary index', got=g)
+    one = np.asarray(tn.ind_to_poi([idx[-1]], a, b, n, kind))
+    if one.shape != (1,) or one[0] != X[-1]:
+        return dict(what='ind_to_poi: single index differs from the same index inside a multi-index')
+    return None
+
+
+ORACLES = dict(pow2=o_scale18, bign=o_bign, history=o_history, grid=o_grid, points=o_points, scale=o_scale, batch=o_batch, bcast=o_bcast, flat=o_flat,
                reject=o_reject, cdf=o_cdf)
 
 
@@ -1116,6 +1202,30 @@ def search(R, ctx, deep, hints):
     if undocumented:
         R.notes.append('observation (reported to the lead): option forms outside the documented types (int, float, list, '
                        'np.ndarray) that raise instead of being treated as scalars: ' + '; '.join(sorted(undocumented)))
+    # 4c. scales: boxes with a, b = +-2^+-500 (and 2^+-1000), the narrowest boxes the precondition admits at offset 2^40,
+    #     exact power-of-two equivariance, n = 2 and n = 2^20 (+1)
+    P5, M5, PK, MK = 2.0 ** 500, 2.0 ** -500, 2.0 ** 1000, 2.0 ** -1000
+    sboxes = [(-P5, P5), (0.0, P5), (P5, 2 * P5), (-3 * P5, -P5), (0.0, M5), (M5, 2 * M5), (-M5, M5), (-M5, P5),
+              (-PK, PK), (PK, 2 * PK), (0.0, MK), (MK, 3 * MK), (-MK, MK),
+              (2.0 ** 40, 2.0 ** 40 + 0.25), (2.0 ** 40, 2.0 ** 40 + 64.0), (-2.0 ** 40 - 1.0, -2.0 ** 40)]
+    for a, b in sboxes:
+        for kind in ['uni', 'cheb']:
+            for n in [2, 3, 17, 2 ** 20, 2 ** 20 + 1]:
+                if not precondition(a, b, n, kind):
+                    skipped += 1
+                    continue
+                idx = sorted({0, 1, n // 2, n - 2, n - 1} & set(range(n))) + [rng.randrange(n) for _ in range(6)]
+                _run(tn, 'bign', (a, b, n, kind, idx), fails, cnt)
+    for t in range(160 if deep else 48):
+        name, a, b = rng.choice(BOXES[:14])
+        kind, n = rng.choice(['uni', 'cheb']), rng.choice([2, 3, 5, 24, 2 ** 20])
+        if not precondition(a, b, n, kind):
+            continue
+        p2 = rng.choice([500, -500, 1, -1, 200, -200, 900 - int(math.log2(max(abs(a), abs(b), 1.0))),
+                         -900 - int(math.log2(min(max(abs(a), abs(b)), b - a)))])
+        idx = [rng.randrange(n) for _ in range(5)] + [0, n - 1]
+        ts = [rng.uniform(-0.3, 1.3) for _ in range(6)] + [0.0, 1.0]
+        _run(tn, 'pow2', (a, b, n, kind, p2, idx, ts), fails, cnt)
     # 5. grid_flat
     shapes = [[1], [2], [5], [1, 1], [2, 3], [3, 2], [4, 1, 2], [2, 2, 2, 2], [3, 4, 5], [1, 2, 3, 4]]
     for _ in range(30 if deep else 8):
